@@ -145,7 +145,10 @@ def leg_b(rep: Report, prop: str, n_cases, T, A, S, families, ms=(0, 1, 2, 5), k
         orient = ['chol', 'pmg', 'rot'][b % 3] if fam not in gen.ORTHO_FAMILIES or True else 'chol'
         inner_fraction = [0.5, 1.0, 0.75][b % 3]
         world = gen.SiteWorld(rng, fam, orient, N=32, n_sites=S, radius=1.0, inner_fraction=inner_fraction)
-        hist = gen.random_history(rng, T, A, S, p_stay=float(rng.choice([0.5, 0.7, 0.85])), inner=inner_fraction < 1)
+        # every fourth case: the site with the highest index is never visited (and, every eighth, neither is site 0)
+        hist = gen.random_history(rng, T, A, S - 1 if (b % 4 == 3 and S >= 3) else S, p_stay=float(rng.choice([0.5, 0.7, 0.85])), inner=inner_fraction < 1)
+        if b % 8 == 7 and S >= 3:
+            hist = [[[x + 1 if x >= 0 else x for x in st] for st in fr] for fr in hist]
         try:
             r, tr = sites_drive.record_pipeline(b, world, hist, inner_fraction=inner_fraction, ms=ms, ks=ks,
                                                 want=want or ACTS[prop])
